@@ -60,7 +60,8 @@ PROPS = {
               "Decides the structural conditions for effective memoization: the fingerprint depends on keys(options) only (extra or "
               "re-ordered top-level keys cannot split entries); WithOptions.keys removes keys fixed by the pre-set dictionary; "
               "Computation and Logged sit inside cached() so effects and logging happen only on a miss; the effect runs after the "
-              "body with its value; the set handler stores and reads back.",
+              "body with its value; the set handler stores and reads back; a miss of MemoryCache.get is decided by the key, never by the "
+              "stored value (a stored None is served); no operation keeps an options-dependent result on a shared object.",
               "the number of body executions for concrete DAGs, sharing inside one evaluation, behaviour of over-wide key sets",
               filters={"R-PO": ["WithOptions"], "R-EO": ["Computation", "CallbackEffect", "ChainedEffect"], "R-OA": ["WithOptions", "Cached", "Dataset"],
                        "R-MC": ["MemoryCache"], "R-CW": ["Dataset.overload"]}),
@@ -68,7 +69,8 @@ PROPS = {
               "Decides: every component of every keys() result is a child's keys, an empty set, a literal key guarded by "
               "dotted_key_exists, or a filtered subset (WithOptions filter checked as a propositional formula on all 8 assignments); "
               "the fingerprint is a deterministic function of the sorted keyed pairs (no hash/id/set-order/environment dependence); "
-              "nothing consulted is unkeyed; dotted keys are only looked up through dotted accessors.",
+              "nothing consulted is unkeyed; dotted keys are only looked up through dotted accessors; keys() follows the same member "
+              "selection as evaluate() (coalesce validates before keying) and consults per-element children per element.",
               "restrict-and-re-evaluate equality on concrete dictionaries; F13",
               filters={"R-WI": [":keys:"], "R-OP": [":iterates"], "R-OA": [":keys:"]}),
     "C04": _p(["R-MS", "R-FV", "R-AB", "R-MP", "R-KN", "R-PU", "R-CC", "R-KC", "R-NK", "R-IS", "R-TK"],
@@ -76,7 +78,8 @@ PROPS = {
               "KeyError/dotted_key_exists only); the default is consulted only on the key-absent branch behind `is not MISSING`; "
               "every returning path of Option.evaluate passes the returned value through the type request and the domain check, and "
               "a rejecting domain always raises; KeyNotFoundError names key and source; Option.set builds a fresh dictionary and "
-              "mixes it over the input; re-keying an Option into a namespace carries every field.",
+              "mixes it over the input; re-keying an Option into a namespace carries every field and exactly one prefix; Template.evaluate "
+              "always goes through resolve(); no evaluated domain or other options-dependent result is memoised on the Option.",
               "the values returned for particular dictionaries; list-index and prefix-key semantics inside confectioner",
               filters={"R-CC": ["Option(", "Namespace(", "_Auto("], "R-PU": ["labrea.option", "labrea.template"], "R-KC": ["labrea.option.Option:"],
                        "R-IS": ["labrea.option.", "labrea.template."], "R-TK": ["Template.evaluate"]}),
@@ -84,13 +87,15 @@ PROPS = {
               "Decides only the selection/order skeleton: switch indexes the table by the dispatch value, default exactly on dispatch "
               "failure or miss, SwitchError without default; case-when returns the result paired with the first condition that holds; "
               "coalesce returns at the first member that validates and evaluates; collections and the Map product iterate in stored "
-              "order from one mapping; Apply/Bind/FunctionApplication apply the function to the evaluated parts.",
+              "order from one mapping and pre-set each combination as dotted option keys; Apply/Bind/FunctionApplication apply the function "
+              "to the evaluated parts; the combinator API (call, >>, apply, bind) is not overridden by a concrete class.",
               "value equality with a reference interpreter for arbitrary expression trees (most of the property)",
               filters={"R-MX": ["Map._iter", "WithOptions.evaluate"], "R-CD": ["Switch", "Coalesce", "CaseWhen", "user callable"]}),
     "C06": _p(["R-CL", "R-SL", "R-AB", "R-EO", "R-EV", "R-SO"],
               "Decides: no evaluation op is reachable from construction/decoration/registration code (whole-program reachability "
               "over resolved callees); unselected switch/case/coalesce branches never receive an op; the default is touched only when "
-              "the key is absent; the source of >> is evaluated before the function; inspection methods evaluate selectors only.",
+              "the key is absent; the source of >> is evaluated before the function (and no class overrides apply/>> to collapse chains); "
+              "inspection methods evaluate selectors only.",
               "which bodies actually ran for a given dictionary",
               filters={"R-SO": ["Coalesce", "CaseWhen"]}),
     "C07": _p(["R-RG", "R-LB", "R-KC", "R-DC", "R-CC", "R-ID", "R-CW", "R-SO", "R-CD", "R-LS"],
@@ -105,7 +110,7 @@ PROPS = {
               "Decides: WithOptions mixes the pre-set dictionary as the winning ingredient exactly when forced; all four ops see the "
               "mixed dictionary; dataset decorator options end in the same wrappers in the right nesting; with_options / "
               "with_default_options mix new over stored and carry every other field; no function mutates an options dictionary it did "
-              "not allocate.",
+              "not allocate; no operation keeps an options-dependent result on the object.",
               "merge semantics of confectioner.mix itself; F13",
               filters={"R-CC": ["Dataset("], "R-OA": ["WithOptions", "Dataset", "Map"], "R-PO": ["WithOptions"]}),
     "C09": _p(["R-TK", "R-KC", "R-RK", "R-CH", "R-GS"],
@@ -117,20 +122,23 @@ PROPS = {
     "C10": _p(["R-VA", "R-KC", "R-OA", "R-CP", "R-EV", "R-SL", "R-OP", "R-SH", "R-WI", "R-MF"],
               "Decides: for every node class, every evaluate path's children are covered by one validate path; the same children are "
               "keyed; the same options form is passed; Cached.validate skips only on exists; inspection evaluates selectors only; "
-              "unselected branches are not validated.",
+              "unselected branches are not validated; a child evaluated per element is validated per element; dataset-class "
+              "validate/keys/instantiation enumerate the same members.",
               "agreement for a particular dictionary when it hinges on values",
               filters={"R-CP": ["validate"], "R-OP": [":iterates"], "R-SH": ["labrea.cache."], "R-WI": [":validate:", ":keys:"], "R-MF": ["same member source", "one member enumeration"]}),
     "C11": _p(["R-XA", "R-EG", "R-OA", "R-EV", "R-TK", "R-OP", "R-WI", "R-SO", "R-SL", "R-AB", "R-RK"],
               "Decides: every child keyed or validated is explained, path by path for equal selections; every evaluate/validate "
               "reached from an explain method lies inside a try that catches EvaluationError and raises "
-              "InsufficientInformationError from it or falls back statically.",
+              "InsufficientInformationError from it or falls back statically; explain follows the same selection as validate/keys "
+              "(coalesce, switch), decides presence like keys (not by the value), and covers per-element children.",
               "the iterative fill-until-valid behaviour on concrete dictionaries",
               filters={"R-TK": ["explain"], "R-OP": [":iterates"], "R-WI": [":explain:"], "R-SO": ["Coalesce"], "R-SL": [":explain:"], "R-AB": ["explain"], "R-RK": ["explain"]}),
     "C12": _p(["R-EH", "R-CH", "R-CD", "R-KN", "R-CP", "R-MC", "R-WR", "R-DC", "R-GS", "R-HI", "R-EX", "R-AB"],
               "Decides: the default evaluate handler wraps every exception into EvaluationError(source = this object) chained with "
               "`from`, re-raising its own; all raises inside handlers are chained; only documented fall-through points catch "
               "EvaluationError and nothing else catches Exception; the only path into the memo dictionary is CacheSetRequest built in "
-              "Cached.evaluate from a successful inner evaluation.",
+              "Cached.evaluate from a successful inner evaluation; a failed resolve() of a provided value is reported, not treated as "
+              "'not provided'; the context managers that swap handlers restore the previous runtime on every exit.",
               "the concrete cause chain for a given graph; outcomes of later evaluations",
               filters={"R-CP": ["store-after-compute"], "R-MC": ["writes", "constructs", "calls Cache.set"], "R-WR": ["__init_subclass__", "_evaluate_request", "directly"],
                        "R-DC": ["cache layer", "cached"], "R-HI": ["disabled"], "R-AB": ["Option.evaluate"]}),
@@ -138,7 +146,8 @@ PROPS = {
               "Decides: the operand order of each helper step by symbolic beta-reduction of partial(f, …) against the documented "
               "behaviour; every option-valued helper parameter is handed to the step as an evaluated argument, not captured; "
               "PipelineStep/Pipeline/PartialApplication key and explain their parameters; __iter__ yields rest before tail, "
-              "evaluate applies rest innermost, + appends the right operand's steps.",
+              "evaluate applies rest innermost, + appends the right operand's steps; Value hands out a copy (the wrapped object only "
+              "when copying failed or for deepcopy-atomic types); no composed function is memoised on the pipeline.",
               "associativity/identity of + over all bracketings (a structural induction, not attempted); transform values",
               filters={"R-KC": ["Pipeline", "PartialApplication", "Apply", "FunctionApplication", "EvaluatableArg", "EvaluatableKwargs"],
                        "R-XA": ["Pipeline", "PartialApplication", "Apply", "FunctionApplication", "EvaluatableArg", "EvaluatableKwargs"],
@@ -152,33 +161,38 @@ PROPS = {
     "C15": _p(["R-LS", "R-CW", "R-TI", "R-RE", "R-MC", "R-LB"],
               "Decides the lock and ownership discipline only: every access to the thread->runtime table under the module lock and "
               "keyed by the current thread; the overload table written under the object's lock and replaced copy-on-write; restore "
-              "state of shared runtime objects is per thread; cache entries addressed by fingerprint in all three operations.",
+              "state of shared runtime objects is per thread; cache entries addressed by fingerprint in all three operations; no switch "
+              "built from the overload table is kept on the object (an unlocked check-build-store would race with register).",
               "behaviour under interleavings — no schedule is explored (most of the property)",
               filters={"R-MC": ["key-is-fingerprint"]}),
     "C16": _p(["R-VP", "R-SH", "R-DH", "R-L1", "R-DC", "R-RQ", "R-HI", "R-SK", "R-CP", "R-GS"],
               "Decides: no data flow from a switch, an effect result or a log result into any returned value; the three cache "
               "handlers test both switch spellings first and delegate to disabled twins that touch no backend; the effects switch "
               "selects between two terms containing the same calculation; exactly one log request per Logged.evaluate path, Logged "
-              "inside cached.",
+              "inside cached; Cached.evaluate returns only the retrieved, stored or computed value; no hidden module-level state in "
+              "the cache/logging/computation modules.",
               "observed counts of recomputation and emitted records",
               filters={"R-DC": ["effects", "calculation", "Logged"], "R-HI": ["handle", "disabled"], "R-CP": ["returns-retrieved-stored-or-computed"], "R-GS": ["labrea.cache", "labrea.logging", "labrea.computation"]}),
     "C17": _p(["R-CE", "R-CP", "R-MC", "R-SO"],
               "Decides: CacheGetFailure cannot escape Cached.evaluate/validate, Cache.exists or the set/exists handlers through any "
               "resolved call chain; every return of Cached.evaluate is the retrieved, the stored-and-read-back or the freshly "
-              "computed value; a failed get falls through to the computation; the set handler falls back to request.value.",
+              "computed value; a failed get falls through to the computation; the set handler falls back to request.value; MemoryCache "
+              "decides a miss by the key; coalesce falls through when a member that validated fails to evaluate.",
               "backends that violate the Cache contract in other ways (other exception types)",
               filters={"R-MC": ["MemoryCache.get:a miss"], "R-SO": ["Coalesce"]}),
     "C18": _p(["R-WR", "R-RQ", "R-HD", "R-MP", "R-L1", "R-HI", "R-MF", "R-EO"],
               "Decides nearly the whole mechanism: the four ABC hooks replace every op by a request-issuing wrapper and the default "
               "handlers call the saved implementation; nothing else calls the saved implementations; every concrete class defines "
               "plain methods; cache/log/type-check sites go through XRequest(...).run(); backends are called only by handlers; every "
-              "request type has a default handler.",
+              "request type has a default handler; dataset-class members are evaluated through member.evaluate(); no concrete class "
+              "overrides __call__ (which would evaluate without issuing the request).",
               "third-party subclasses; that a pass-through handler changes no value",
               filters={"R-MP": ["type request"], "R-HI": ["handle", "disabled"], "R-MF": ["set to its evaluation"], "R-EO": ["__call__", "combinator API"]}),
     "C19": _p(["R-DK", "R-MF", "R-KC", "R-VA", "R-XA", "R-WI", "R-EO"],
               "Decides: relevant options are read with dotted accessors; validate/keys/explain/instantiation enumerate members with "
               "the same source and predicate; __eq__ and __repr__ read the recorded relevant options; members are children for key "
-              "coverage / validate / explain agreement.",
+              "coverage / validate / explain agreement; no per-class member memo that derived classes inherit; plain members are "
+              "handed out as copies.",
               "instance attribute values",
               filters={"R-KC": ["_DatasetClassMeta"], "R-VA": ["_DatasetClassMeta"], "R-XA": ["_DatasetClassMeta"], "R-DK": ["datasetclass"],
                        "R-WI": ["_DatasetClassMeta"], "R-EO": ["Value.evaluate"]}),
@@ -186,6 +200,7 @@ PROPS = {
               "Decides necessary conditions of picklability: every class holding a lock drops it in __getstate__ and re-creates it in "
               "__setstate__; node classes use default instance pickling (no __slots__); no wrapper object takes a decorated function's "
               "name while retaining the function without customising pickling; __getattr__ rejects private names before touching "
-              "instance state.",
+              "instance state; identity tests only against objects that keep their identity through pickling (MISSING is an Enum member); "
+              "no operation stores closures or other options-dependent state on the object.",
               "behavioural equality after a round trip, protocols, fresh-process loading"),
 }
